@@ -19,7 +19,7 @@ Relations judged per reported model (nothing else becomes a VIOLATION):
            -multiple_precision) absolute + 1e-11 relative (12-digit report) + half a unit of the last printed digit.
 "At least one model when the truth is admissible" is not in the statement: diagnostic / tally only.
 
-Calibration on the unchanged tree (R5) - eight mechanisms break the statement; all are numerical failures of the
+Calibration on the unchanged tree (R5) - ten fingerprints / nine mechanisms break the statement; all are numerical failures of the
 double-precision cl1 solver whose status the callers ignore or cannot see (this build has no INVERSE_CL1MP).  Each has
 its own fingerprint (constants FP_* in the oracle); every other failure keeps the plain relation fingerprint:
   FP_MINIMAL       minimal_solve() ends with solve_with_mask() and ignores its status: after 'CL1: Roundoff errors' the
@@ -34,6 +34,10 @@ its own fingerprint (constants FP_* in the oracle); every other failure keeps th
   FP_DELTA_TINY    (lattice Z) a listed initial water with fraction 1e-10 < f <= 1e-9: print_model prints every solution
                    with |f| > tolerance and delta = (f*delta)/f, a quotient of sub-threshold numbers: Mg 4.012e-04 +
                    -3.404e-05 at 5 % uncertainty (the library's own MaxFracErr says 8.5e-02); data/c18/delta_tiny.case
+  FP_DELTA_PRODUCT / FP_SIGN_TINY  (lattice Z, thorough) cl1 returns kode 0 with a fraction of -8e-9 .. 2e-8 for a listed water
+                   that the final water does not contain (|f| x concentration < tolerance in every balance row): the
+                   fraction is negative beyond -tolerance, and / or the adjustments (f*delta)/f are garbage (K 9.85e-05 +
+                   -2.092e-04, Al 1e-06 + 6.8e-05); data/c18/sign_tiny.case, data/c18/delta_product.case
 Oracle corrections made during calibration (class b): a transfer with |value| > 1000 is not compared with its range
 (the manual defines min / max as the feasible values nearest -/+ 1000, i.e. clipped: Calcite / Aragonite pairs are
 unbounded); 'CL1: Roundoff errors' messages that belong to range() calls or to discarded candidate sets are no longer
